@@ -2151,6 +2151,18 @@ theorem full_write_read_id_partial (L : Labels) (m : AMap) (M : Int) (hM : 0 ≤
     obtain ⟨h1, h2, h3, h4, h5, h6⟩ := hhex p hp
     exact full_window M p.1.1 p.1.2 h1 h2 h3 h4 h5 h6
 
+/-- **centring a full Cartesian map**: the kept contents are exactly the non-placeholder entries of the map, every one
+moved by the same offset, and that offset is computed from the extent of the WHOLE map (placeholder rows and columns
+at the edge count) -/
+theorem cartCentre_mem (labels : Labels) (q : Cell × String) :
+    q ∈ cartCentre labels ↔ ∃ p ∈ labels, p.2 ≠ PLACEHOLDER ∧
+      q = ((p.1.1 + -((gridSize (labels.map (·.1))).1 / 2), p.1.2 + -((gridSize (labels.map (·.1))).2 / 2)), p.2) := by
+  unfold cartCentre
+  simp only [List.mem_map, List.mem_filter]
+  constructor
+  · rintro ⟨p, ⟨hp, hne⟩, rfl⟩; exact ⟨p, hp, by simpa using hne, rfl⟩
+  · rintro ⟨p, hp, hne, rfl⟩; exact ⟨p, ⟨hp, by simpa using hne⟩, rfl⟩
+
 section Examples
 /-! Non-vacuity: concrete instances of the hypotheses. -/
 private def exL : Labels := [((0, 0), "A"), ((1, 0), "F1"), ((0, 1), "C"), ((2, 1), "B")]
